@@ -133,12 +133,12 @@ def check_base(work, models):
         r = run_tlc(d, m["module"], m["cfg"], workers=m.get("workers", NCPU), heap=m.get("heap", "12g"),
                     timeout=m.get("timeout", 900), extra=m.get("extra"))
         ok = "Model checking completed. No error has been found." in r["out"]
-        violated = ("is violated" in r["out"]) or ("Temporal properties were violated" in r["out"])
+        violated = ("is violated" in r["out"]) or ("was violated" in r["out"]) or ("Temporal properties were violated" in r["out"])
         exp = m.get("expect", "ok")
         if exp == "ok" and not ok:
             raise Machinery("base model %s/%s did not pass:\n%s" % (m["module"], m["cfg"], tlc_error_summary(r["out"]) or r["out"][-2000:]))
         if exp == "violation" and not violated:
-            raise Machinery("base model variant %s/%s was expected to violate its invariant but did not (vacuity guard):\n%s" % (m["module"], m["cfg"], r["out"][-1500:]))
+            raise Machinery("base model variant %s/%s was expected to violate its invariant but did not (vacuity guard):\n%s" % (m["module"], m["cfg"], r["out"][-400:]))
         if exp == "ok" and r["distinct"] < 1:
             raise Machinery("could not read state counts from TLC output for %s/%s" % (m["module"], m["cfg"]))
         log("base %s/%s: %s, %d generated / %d distinct, depth %d, %.1fs" % (m["module"], m["cfg"], exp, r["generated"], r["distinct"], r["depth"], r["wall"]))
